@@ -197,6 +197,32 @@ def check_ts(b, res: Result, s, n, off_min, pos):
     except Exception as e:
         res.violation("decode", sig0 + ["raised:" + type(e).__name__], f"{dt.isoformat()}: parse raised {e!r}", w)
     _other_entry_points(cls, m, data, nm, pos, dt, sig0, res, w, dt.isoformat())
+    if pos == "repeated":
+        # the same value entering the list AFTER the list became the field's value (appended in place, item assignment,
+        # appended to a list that was assigned before): bytes and JSON must not depend on how the datetime got there
+        try:
+            ways = {}
+            a = cls()
+            getattr(a, nm).append(dt)
+            ways["append-to-lazy-default"] = a
+            lst = []
+            c = cls(**{nm: lst})
+            lst.append(dt) if getattr(c, nm) is lst else getattr(c, nm).append(dt)
+            ways["append-after-constructor"] = c
+            d2 = cls(**{nm: [datetime(2001, 2, 3, tzinfo=timezone.utc)]})
+            getattr(d2, nm)[0] = dt
+            ways["item-assignment"] = d2
+            e = cls().parse(data)
+            getattr(e, nm)[0] = dt
+            ways["item-assignment-after-parse"] = e
+            want_json = m.to_dict()
+            for how, obj in ways.items():
+                res.counters["repeated_inplace_ways"] += 1
+                if bytes(obj) != data or obj.to_dict() != want_json:
+                    res.violation("inplace", sig0 + [how, "bytes-differ" if bytes(obj) != data else "json-differs"],
+                                  f"{dt.isoformat()} put into the repeated field by {how}: bytes {bytes(obj).hex()} JSON {obj.to_dict()} vs constructor {data.hex()} {want_json}", w)
+        except Exception as e:
+            res.violation("inplace", sig0 + ["raised:" + type(e).__name__, "-"], f"{dt.isoformat()}: {e!r}", w)
     if pos in ("singular", "optional", "oneof", "repeated"):
         try:
             d = m.to_dict()
